@@ -1054,12 +1054,52 @@ impl Backend for SimBackend {
         });
         let mut h = w.http.take();
         let r = match &mut h {
-            Some(handler) => handler.serve(&mut *w, method, url, headers),
-            None => Err(io::Error::new(io::ErrorKind::ConnectionRefused, "no http server in this world")),
+            Some(handler) => Some(handler.serve(&mut *w, method, url, headers)),
+            // no request-level stub in this world: the real HTTP client (ureq) runs over the
+            // simulated TCP transport and clock
+            None => None,
         };
         w.http = h;
-        Some(r)
+        r
     }
+}
+
+/// Transport and clock of the vendored HTTP client: the same simulated OS layer.
+impl verif_net::Net for SimBackend {
+    fn now_ns(&mut self) -> u64 { self.0.borrow().now }
+
+    fn tcp_connect(&mut self, to: SocketAddr, timeout: Option<Duration>) -> io::Result<u64> {
+        self.0.borrow_mut().stats.probe("http_client_connects_over_simulated_tcp");
+        Backend::tcp_connect(self, to, timeout)
+    }
+
+    fn tcp_write(&mut self, s: u64, data: &[u8]) -> io::Result<usize> { Backend::tcp_write(self, s, data) }
+
+    fn tcp_read(&mut self, s: u64, buf: &mut [u8]) -> io::Result<usize> { Backend::tcp_read(self, s, buf) }
+
+    fn tcp_peek(&mut self, s: u64) -> io::Result<usize> {
+        let w = self.0.borrow();
+        match &w.socks[s as usize].kind {
+            SockKind::Tcp { rx, fin, rst, .. } => {
+                if !rx.is_empty() {
+                    Ok(rx.len().min(1))
+                } else if *rst {
+                    Err(io::Error::new(io::ErrorKind::ConnectionReset, "Connection reset by peer"))
+                } else if *fin {
+                    Ok(0)
+                } else {
+                    Err(io::Error::new(io::ErrorKind::WouldBlock, "Resource temporarily unavailable"))
+                }
+            }
+            _ => Err(io::Error::new(io::ErrorKind::InvalidInput, "not a stream socket")),
+        }
+    }
+
+    fn set_read_timeout(&mut self, s: u64, t: Option<Duration>) -> io::Result<()> { Backend::set_read_timeout(self, s, t) }
+
+    fn set_write_timeout(&mut self, s: u64, t: Option<Duration>) -> io::Result<()> { Backend::set_write_timeout(self, s, t) }
+
+    fn close(&mut self, s: u64) { Backend::close(self, s) }
 }
 
 // ---------------- history helpers ----------------
